@@ -38,6 +38,12 @@ fn check_remapper<T: DiffableStr + ?Sized>(d: &TextDiff<'_, '_, '_, T>, old: &T,
             .collect();
         let remapped: Vec<(ChangeTag, &T)> = remapper.iter_slices(op).collect();
         let remapped2: Vec<(ChangeTag, Vec<u8>)> = remapper2.iter_slices(op).map(|(t, s)| (t, s.as_bytes().to_vec())).collect();
+        if oi == 0 || oi + 1 == d.ops().len() {
+            let f = iter_battery(&|| remapper.iter_slices(op), &|(t, s): (ChangeTag, &T)| format!("{:?} {:?}", t, s.as_bytes()), oi as u64 + 3);
+            if let Some(f) = f.first() {
+                fails.push(("remap.iterator_protocol", format!("op #{} {:?}: TextDiffRemapper::iter_slices: {}", oi, op, f)));
+            }
+        }
         let tags_a: Vec<ChangeTag> = by_tokens.iter().map(|x| x.0).collect();
         let tags_b: Vec<ChangeTag> = remapped.iter().map(|x| x.0).collect();
         if tags_a != tags_b {
